@@ -181,7 +181,9 @@ def _mutation_wrapper(
     def wrapped(*args, **kwargs):
         with MutationContext(module, method, attribute):
             # This handles the case of an `EvolvableWrapper`
-            if attribute not in module.mutation_methods:
+            if attribute not in module.mutation_methods and attribute not in getattr(
+                module, "_delegated_mutations", ()
+            ):
                 module.last_mutation_attr = None
                 module.last_mutation = None
                 return
@@ -703,6 +705,10 @@ class EvolvableWrapper(EvolvableModule):
         # Disable mutations in the wrapped module since these are
         # now handled by the wrapper
         module.disable_mutations()
+
+        # NOTE: The wrapper advertises the wrapped module's mutation methods and calls
+        # them on the wrapped module, which must therefore still let them through
+        module._delegated_mutations = list(self.mutation_methods)
         self._wrapped = module
 
     @property
